@@ -124,6 +124,15 @@ impl<T> Out<T> {
             Out::Panic(_) => "panic",
         }
     }
+    pub fn describe_val(&self) -> String
+    where
+        T: std::fmt::Debug,
+    {
+        match self {
+            Out::Ok(t) => format!("Ok({t:?})"),
+            other => other.describe(),
+        }
+    }
     pub fn describe(&self) -> String {
         match self {
             Out::Ok(_) => "Ok".into(),
@@ -285,6 +294,23 @@ pub fn sign_bytes(alg: Alg, blob: &[u8], msg: &[u8], script: Cb, aux: Option<&mu
                 None => hbs_lms::sign::<H>(msg, blob, &mut cb, None),
             };
             r.map(|s| s.as_ref().to_vec())
+        }))
+    });
+    SignRec { result, cb_args, late_callbacks: 0, key_after: None }
+}
+
+/// Sign through the byte-level entry point with a callback that crashes (panics) after having
+/// seen the new key: models a storage layer failing in the middle of persisting.
+pub fn sign_bytes_crashing(alg: Alg, blob: &[u8], msg: &[u8]) -> SignRec {
+    let mut cb_args: Vec<Vec<u8>> = Vec::new();
+    let result = with_hash!(alg, H, {
+        let cbref = &mut cb_args;
+        out_of(guard(move || {
+            let mut cb = |new_key: &[u8]| -> Result<(), ()> {
+                cbref.push(new_key.to_vec());
+                panic!("verif: storage crashed while persisting");
+            };
+            hbs_lms::sign::<H>(msg, blob, &mut cb, None).map(|s| s.as_ref().to_vec())
         }))
     });
     SignRec { result, cb_args, late_callbacks: 0, key_after: None }
